@@ -37,6 +37,8 @@ func propHistory(t *rapid.T) {
 			}
 		}
 		rec.ClassN("steps", len(m.Trace))
+		rec.ClassN("swaps_checked_for_burn", m.Count["swaps_checked_for_burn"])
+		rec.ClassN("swaps_with_fee_checked_for_burn", m.Count["swaps_with_fee_checked_for_burn"])
 		rec.Sample("history", map[string]any{"trace": m.Trace})
 	}
 }
